@@ -873,6 +873,8 @@ class Engine:
             return self.conc(Sym(z3.Sum(*[e * (256 ** k) for k, e in enumerate(el)]) if el else z3.IntVal(0)))
         if isinstance(f, (types.BuiltinMethodType, types.BuiltinFunctionType)):
             slf = getattr(f, '__self__', None)
+            if f.__name__ == 'join' and args and hasattr(args[0], '__pyvc_joined__'):
+                return args[0].__pyvc_joined__(self, slf)
             if isinstance(slf, (list, dict, set)) or (slf is None and f.__name__ != 'join'):
                 # list.append/insert/pop, dict.get, ... : containers are concrete, payloads symbolic
                 if f.__name__ == 'join' and isinstance(slf, (bytes, str)):
